@@ -43,7 +43,7 @@ with.
 
 Outside the fragment (=> TranslateError => the tie is reported broken):
 multiple inheritance inside the chain, unknown decorators, `self` escaping
-(passed to an unknown function, stored, returned), `del self.a`,
+(passed to an unknown function, stored; `return self` and copy / repr / isinstance are fine), `del self.a`,
 `setattr/vars/__dict__`, `global/nonlocal`, generators, recursion among the
 inlined methods, a decorated nested function that mentions `self`
 (an undecorated closure over `self` is analysed as "possibly executed" where it is defined).
@@ -64,8 +64,9 @@ U, N, F, L = 'U', 'N', 'F', 'L'
 FU = frozenset([U])
 KNOWN_DECORATORS = ('property', 'staticmethod', 'classmethod', 'abstractmethod', 'abc.abstractmethod')
 IGNORED_BASES = ('object', 'ABC', 'abc.ABC', 'Generic')
-# builtins that may be handed `self` without being able to change it
-SELF_OK = ('isinstance', 'type', 'id', 'repr', 'str', 'hash', 'len')
+# functions that may be handed `self` without changing its attributes (copies are new objects)
+SELF_OK = ('isinstance', 'type', 'id', 'repr', 'str', 'hash', 'len', 'print', 'format', 'copy.copy',
+           'copy.deepcopy', 'pickle.dumps', 'deepcopy')
 # method names that change the object they are called on
 MUTATING = ('fill', 'sort', 'resize', 'put', 'itemset', 'append', 'extend', 'insert', 'pop', 'remove', 'clear',
             'update', 'setdefault', 'partition', 'byteswap', 'popitem', 'add', 'discard', 'reverse', '__setitem__',
@@ -469,7 +470,7 @@ class Analyzer:
                 raise TranslateError('%s has no %s' % (ast.unparse(f.value), f.attr))
             return self.call(fr, st, fc, fn)
         # builtins that only look at self
-        if isinstance(f, ast.Name) and f.id in SELF_OK:
+        if isinstance(f, (ast.Name, ast.Attribute)) and ast.unparse(f) in SELF_OK:
             return self.ev_args(e, st, fr, skip_self=True)
         # a local variable holding one of several bound methods taken earlier (`options[key](..)`)
         if isinstance(f, ast.Name) and f.id in fr.locals and fr.method_refs and not self.is_local_def(fr, f.id):
@@ -591,7 +592,8 @@ class Analyzer:
                 raise TranslateError('augmented assignment to %s' % a)
             return self.assign_target(fr, st, t, None)
         if isinstance(s, ast.Return):
-            st = self.ev(s.value, st, fr)
+            if not self.is_self(s.value):            # `return self` (fluent interface) changes nothing
+                st = self.ev(s.value, st, fr)
             if st is not None:
                 fr.returns.append(st)
             return None
@@ -923,6 +925,13 @@ class A:
         return self.d + self._e
     def escape(self):
         return helper(self)
+    def clone(self):
+        import copy
+        other = copy.deepcopy(self)
+        return other
+    def fluent(self, v):
+        self.x = v
+        return self
 
 class B(A):
     def __init__(self):
@@ -972,6 +981,8 @@ def selftest():
         (('A', 'inplace'), ([], ['_x'], [], [], ['_x'])),
         (('A', 'tryit'), (['_c', '_d'], ['_x'], [], [], ['_x'])),
         (('A', 'reader'), ([], [], [], ['_c', '_d'], ['_c', '_d', '_e', '_x'])),
+        (('A', 'clone'), ([], [], [], [], [])),
+        (('A', 'fluent'), (['_c'], ['_x'], [], [], [])),
         (('B', 'set_x'), (['_c', '_d', '_g'], ['_x'], [], [], [])),
         (('B', 'via_setter'), (['_c', '_d', '_g'], ['_x'], [], [], [])),
     ]
